@@ -256,6 +256,13 @@ def run(ctx):
     fx_off = dm.Fixture(dm.std_reg("default", use_jsonclass=False), version=2.0, config=cfg_off)
     fx_on = dm.Fixture(dm.std_reg("default"), version=2.0)
     t_off, t_on = CannedTransport(), CannedTransport()
+    # client proxies of every (explicit version, config version) pairing: the switch must hold for all of them
+    proxies_off = []
+    for cv in (2.0, 1.0):
+        c = jsonrpclib.config.Config(version=cv, use_jsonclass=False)
+        c.classes.add(dict, "K")
+        for pv in (None, 1.0, 2.0):
+            proxies_off.append(jsonrpclib.ServerProxy("http://canned/", transport=t_off, config=c, version=pv))
     proxy_off = jsonrpclib.ServerProxy("http://canned/", transport=t_off, config=cfg_off)
     proxy_on = jsonrpclib.ServerProxy("http://canned/", transport=t_on)
     # warm-up: lazy imports of the stack itself must not be attributed to payloads
@@ -278,7 +285,8 @@ def run(ctx):
                     if not ctx.mine(n):
                         continue
                     payload = embed(dict(extra, __jsonclass__=copy.deepcopy(desc)), depth, rng)
-                    check_off(ctx, mon, payload, side, fx_off, proxy_off, t_off)
+                    check_off(ctx, mon, payload, side, fx_off,
+                              proxies_off[n % len(proxies_off)] if side == "client" else proxy_off, t_off)
     for i in range(ctx.pick(300, 40000)):
         v = gen.json_value(rng, 3, 3)
         d = {"__jsonclass__": rng.choice(descriptors + [gen.json_value(rng, 2, 3)])}
@@ -286,7 +294,7 @@ def run(ctx):
         if isinstance(v, dict):
             v["x"] = payload
             payload = v
-        check_off(ctx, mon, payload, rng.choice(("loads", "server", "client")), fx_off, proxy_off, t_off)
+        check_off(ctx, mon, payload, rng.choice(("loads", "server", "client")), fx_off, rng.choice(proxies_off), t_off)
     ctx.sample({"switch": "off", "payload": {"k": [1, {"__jsonclass__": ["vfcanarymod.Boom", []], "attr": 1}]}})
 
     # (B) on: exhaustive short names
